@@ -570,6 +570,11 @@ func callSSA(i *interpreter, caller *frame, callpos token.Pos, fn *ssa.Function,
 		if zeroResultFns[name] {
 			return zeroResults(fn)
 		}
+		if preferNative[name] {
+			if nf := nativeFallback(name); nf != nil {
+				return nf(fr, args)
+			}
+		}
 		if fn.Blocks == nil {
 			if nf := nativeFallback(name); nf != nil {
 				return nf(fr, args)
